@@ -75,7 +75,8 @@ def case_strategy(draw: Any) -> Dict[str, Any]:
         "sched": draw(st.integers(0, 999)),
         "seg": draw(segmentation()),
         "cfg": {"keep_alive_max_requests": draw(st.sampled_from([1, 2, 3, 1000, 1000, 1000])),
-                "max_app_queue_size": draw(st.sampled_from([1, 2, 10, 10]))},
+                "max_app_queue_size": draw(st.sampled_from([1, 2, 10, 10])),
+                "h11_pass_raw_headers": draw(st.booleans())},
     }
     return avoid_known_deadlock(case)
 
